@@ -248,6 +248,9 @@ axiom('naming', 'assumed', 'N1 print_state_set is injective on sets of state nam
       ForAll([_S, _T], Implies(name_of_set(_S) == name_of_set(_T), _S == _T)))
 axiom('naming', 'assumed', 'N2 "(p,q)" is injective for comma-free p, q',
       ForAll([_p, _q, _p2, _q2], Implies(pair_name(_p, _q) == pair_name(_p2, _q2), And(_p == _p2, _q == _q2))))
+_jn = Const('jn', Int)
+axiom('naming', 'assumed', 'N5 names generated from the hints start / accept differ from each other and from the two hints (different first letters)',
+      ForAll([_i, _jn], And(hint_index_name(lit('start'), _i) != hint_index_name(lit('accept'), _jn), hint_index_name(lit('start'), _i) != lit('accept'), hint_index_name(lit('accept'), _jn) != lit('start'))))
 axiom('naming', 'assumed', 'N4 hint+index is injective in the index',
       ForAll([_p, _i, _j], Implies(hint_index_name(_p, _i) == hint_index_name(_p, _j), _i == _j)))
 
@@ -1276,3 +1279,21 @@ axiom('pdax', 'lemma', 'EcloP-by-singletons', ForAll([_Pp, _Rc, _c2], Select(Ecl
 _c3 = Const('c3', Conf)
 axiom('pdax', 'lemma', 'reachP-step-pw', ForAll([_Pp, _w, _a, _c2], Select(reachP(_Pp, Word.snoc(_w, _a)), _c2) ==
       Exists([_c1], And(Select(reachP(_Pp, _w), _c1), Select(EcloP(_Pp, stepsetP(_Pp, csingle(_c1), _a)), _c2)))))
+
+
+@spec('relookup')
+def s_relookup(ev, m, k):
+    """m.get(k, Zero()) for a map of regular expressions with default Zero (the transition labels of a GNFA)"""
+    if m.t.args[1] == REGEXP and m.t.args[0] == KEY2: return SV(REGEXP, Select(relabel(map_dom(m), map_val(m)), k.z))
+    raise TypeError('relookup')
+
+
+# total view of a map of regular expressions with default Zero (named, so that it can serve as an instantiation trigger)
+LabA = ArraySort(Key2, Regexp)
+relabel = Function('relabel', RelA, LabA, LabA)
+_lv = Const('lv', LabA); _rr = Const('rr', Regexp)
+axiom('regexp', 'def', 'relabel-def', ForAll([_R, _lv, _k2], Select(relabel(_R, _lv), _k2) == If(Select(_R, _k2), Select(_lv, _k2), Regexp.Zero),
+                                             patterns=[Select(relabel(_R, _lv), _k2), z3.MultiPattern(relabel(_R, _lv), Select(_lv, _k2))]))
+axiom('regexp', 'lemma', 'relabel-store', ForAll([_R, _lv, _k2, _rr], relabel(Store(_R, _k2, True), Store(_lv, _k2, _rr)) == Store(relabel(_R, _lv), _k2, _rr)))
+@spec('hint_index_name')
+def s_hint_index_name(ev, h, i): return SV(ATOM, hint_index_name(h.z, i.z))
